@@ -13,6 +13,7 @@ import (
 	"fmt"
 	"os"
 	"runtime"
+	"sort"
 	"strconv"
 	"strings"
 	"sync"
@@ -52,6 +53,7 @@ type C06Case struct {
 	Writer  []Op        `json:"writer"`
 	Readers [][]ROp     `json:"readers"`
 	Plan    []Directive `json:"plan"`
+	Reopen  bool        `json:"reopen_cold,omitempty"` // after the initial versions continue on a fresh handle (cold node and fast-node caches)
 	Stress  bool        `json:"stress,omitempty"`
 	Pauses  []int       `json:"pauses,omitempty"`
 }
@@ -260,6 +262,13 @@ func runC06(c C06Case) (v *Violation, st c06Stats) {
 		}
 	}
 	v0 := latest
+	if c.Reopen {
+		_ = tr.Close()
+		tr = iavl.NewMutableTree(tdb, c.Cache, c.Skip, iavl.NewNopLogger(), opts...)
+		if _, err := tr.Load(); err != nil {
+			return &Violation{Prop: "C06", Obs: "harness", Msg: err.Error()}, st
+		}
+	}
 	for _, op := range c.Writer {
 		_ = apply(op, false) // model only
 	}
@@ -333,6 +342,7 @@ func runC06(c C06Case) (v *Violation, st c06Stats) {
 			case "unpin":
 				if exs := pins[op.N]; len(exs) > 0 {
 					exs[0].Close()
+					exs[0].Close() // Close is documented as safe to call multiple times (explicit + deferred Close idiom)
 					pins[op.N] = exs[1:]
 				}
 			case "prune":
@@ -562,7 +572,7 @@ var c06Events = []string{"yield:SaveVersion:afterCommit", "yield:SaveVersion:aft
 
 func genC06(t *rapid.T, stress bool) C06Case {
 	c := C06Case{Prop: "C06", Cache: rapid.SampledFrom([]int{0, 0, 2, 1000}).Draw(t, "cache"), Skip: rapid.Bool().Draw(t, "skip"),
-		Async: rapid.IntRange(0, 3).Draw(t, "async") == 0, Stress: stress}
+		Async: rapid.IntRange(0, 3).Draw(t, "async") == 0, Stress: stress, Reopen: rapid.Bool().Draw(t, "reopenCold")}
 	work := map[string][]byte{}
 	genWrites := func(n int, dst *[]Op) {
 		for i := 0; i < n; i++ {
@@ -591,7 +601,7 @@ func genC06(t *rapid.T, stress bool) C06Case {
 	// writer script
 	latest := int64(v0)
 	first := int64(1)
-	pinned := map[int64]bool{}
+	pinned := map[int64]int{}
 	nw := rapid.IntRange(3, 14).Draw(t, "nwriter")
 	for i := 0; i < nw; i++ {
 		switch x := rapid.IntRange(0, 11).Draw(t, "wop"); {
@@ -608,12 +618,18 @@ func genC06(t *rapid.T, stress bool) C06Case {
 			}
 		case x == 9 && first < minRead:
 			pv := rapid.Int64Range(first, minRead-1).Draw(t, "pinv")
-			pinned[pv] = true
+			if len(pinned) > 0 && rapid.Bool().Draw(t, "pinSame") {
+				pv = sortedInt64Keys(pinned)[0] // a second export of a version that is already being exported
+			}
+			pinned[pv]++
 			c.Writer = append(c.Writer, Op{Kind: "pin", N: pv})
 		case x == 10 && len(pinned) > 0:
-			for pv := range pinned {
+			for _, pv := range sortedInt64Keys(pinned) {
 				c.Writer = append(c.Writer, Op{Kind: "unpin", N: pv})
-				delete(pinned, pv)
+				pinned[pv]--
+				if pinned[pv] == 0 {
+					delete(pinned, pv)
+				}
 				break
 			}
 		default:
@@ -635,6 +651,18 @@ func genC06(t *rapid.T, stress bool) C06Case {
 				op.V = rapid.Int64Range(minRead, int64(v0)).Draw(t, "rv")
 			}
 			op.K = genKey(t, allKeys[len(allKeys)-1])
+			if rapid.Bool().Draw(t, "rwkey") {
+				// prefer a key the writer touches
+				var wk [][]byte
+				for _, wo := range c.Writer {
+					if wo.Kind == "set" || wo.Kind == "remove" {
+						wk = append(wk, wo.K)
+					}
+				}
+				if len(wk) > 0 {
+					op.K = rapid.SampledFrom(wk).Draw(t, "rwk")
+				}
+			}
 			script = append(script, op)
 		}
 		c.Readers = append(c.Readers, script)
@@ -670,7 +698,16 @@ func genC06(t *rapid.T, stress bool) C06Case {
 	return c
 }
 
-func pinnedIn(p map[int64]bool, lo, hi int64) bool {
+func sortedInt64Keys(m map[int64]int) []int64 {
+	out := make([]int64, 0, len(m))
+	for k := range m {
+		out = append(out, k)
+	}
+	sort.Slice(out, func(i, j int) bool { return out[i] < out[j] })
+	return out
+}
+
+func pinnedIn(p map[int64]int, lo, hi int64) bool {
 	for v := range p {
 		if v >= lo && v <= hi {
 			return true
